@@ -22,6 +22,7 @@ import gen
 from common import CONFIG_INI, Quiet, VERIF, coq_bad, known_open, listlit, pmap, ulit
 
 SIG_D10 = "header-cache-join"
+SIG_D24 = "cache-keyed-by-path-only"
 DRIVER = os.path.join(VERIF, "harness", "c19_driver.py")
 
 
@@ -112,6 +113,12 @@ def gen_seq(rng, sid):
             rows[0] = [rng.choice(HEADER_CELLS) for _ in range(w)]       # hostile header cells
             rows = [rows[0]] + [[f"r{i}", str(i), "x"][:w] for i in range(1, len(rows))]
         files.append((f"d{f}.csv", rows))
+    if rng.random() < 0.4:
+        # the file at a path already read is replaced by other content (other headers, other length) between jobs
+        fname, rows = rng.choice(files)
+        w = rng.choice([2, 3, 4])
+        hdr = [rng.choice(["k", "v", "id", "b", "a", "zz"]) for _ in range(w)]
+        files.append((fname, [hdr] + [[f"n{i}", str(i * 3), "y"][:w] for i in range(1, rng.choice([2, 4, 7, 9]))]))
     seq = []
     for k in range(n):
         fname, rows = rng.choice(files)
@@ -175,6 +182,7 @@ def run(ctx):
     seqs = [gen_seq(rng, i) for i in range(40 if quick else 1200)]
     sres = pmap(ctx, seq_job, [(i, ctx.pkg, s) for i, s in enumerate(seqs)], chunksize=1)
     fails = []
+    stale = []      # open finding D24: the cache is keyed by the path only
     jobs_run = 0
     for s, r in zip(seqs, sres):
         for phase in ("first", "second"):
@@ -182,7 +190,11 @@ def run(ctx):
                 jobs_run += 1
                 if got != twin:
                     diff = [key for key in sorted(set(got) | set(twin)) if got.get(key) != twin.get(key)]
-                    fails.append({"kind": f"job {k} of a sequence ({'same process, cold cache' if phase == 'first' else 'later process, cache populated'}) differs from the same job run first in a fresh process: {diff}",
+                    earlier = s[:k] if phase == "first" else s
+                    rec = fails
+                    if j["how"] != "direct" and any(x["fname"] == j["fname"] and x["rows"] != j["rows"] and x["how"] != "direct" for x in earlier):
+                        rec = stale     # a CsvPaths-created csvpath on a path whose earlier content a CsvPaths-created csvpath has cached
+                    rec.append({"kind": f"job {k} of a sequence ({'same process, cold cache' if phase == 'first' else 'later process, cache populated'}) differs from the same job run first in a fresh process: {diff}",
                                   "sequence": [{"csvpath": x["text"], "file": x["fname"], "created": x["how"]} for x in s], "job": k, "rows": j["rows"],
                                   "in_sequence": {d: got.get(d) for d in diff}, "fresh_process": {d: twin.get(d) for d in diff}})
     # (c)
@@ -195,6 +207,11 @@ def run(ctx):
     d10 = [i for i in kbad["c19k_spec"] if i not in kbad["c19k_agree true"]]
     k_other = [i for i in sorted(kbad["c19k_spec"]) if i not in d10]
     cache_fails = [f for f in fails if "headers" in str(f["kind"])]
+    if stale:
+        if known_open(ctx.pid, SIG_D24):
+            ctx.known(f"{SIG_D24}: a CsvPaths-created csvpath on a path whose file was replaced runs with the replaced file's cached line counts and headers ({len(stale)} jobs this run)")
+        else:
+            ctx.violation("stale-cache", {"what": "a CsvPaths-created csvpath run on a path whose file was replaced uses the earlier file's cached line counts and headers", "case": stale[0], "failures": len(stale)})
     if d10:
         if known_open(ctx.pid, SIG_D10):
             ctx.known(f"{SIG_D10}: header rows are cached with ','.join and re-read with csv.reader ({len(d10)} header rows this run)")
@@ -211,13 +228,13 @@ def run(ctx):
                                          "disagreeing_case": {"footprint_new": fp_new} if fp_new else kcase(sorted(kbad["c19k_agree false"])[0])}, no_input=True)
     ctx.coverage.update({
         "evaluations": len(kjobs) + jobs_run + sum(len(s) for s in seqs), "distinct_nontrivial": len({json.dumps(s, sort_keys=True) for s in seqs}),
-        "rule": "(a) header rows of 0-4 cells from a hostile pool (leading quote, embedded quote, comma, newline, empty, spaces, non-ASCII) through the real FileCacher write + a fresh "
+        "rule": "(b) includes sequences (40%) in which the file at a path already read is replaced by other content between jobs; (a) header rows of 0-4 cells from a hostile pool (leading quote, embedded quote, comma, newline, empty, spaces, non-ASCII) through the real FileCacher write + a fresh "
                 "FileCacher read; (b) sequences of 2-6 jobs over 1-2 files (60% with hostile header cells; generated csvpaths, header-inspecting csvpaths, 15% append()) created directly / by a "
                 "shared CsvPaths / by a new CsvPaths, run in one subprocess with a cold cache, again in a second subprocess with the cache populated, each job vs its twin alone in a fresh "
                 "subprocess (lines, variables, printouts, errors, verdict, counters, headers); (c) ast footprint of class/module-level mutable state. Non-trivial = distinct sequences.",
         "samples": [{"sequence": [{"csvpath": x["text"], "file": x["fname"], "created": x["how"]} for x in seqs[0]]}],
         "header_rows": len(kjobs), "sequences": len(seqs), "jobs_compared_with_fresh_process_twin": jobs_run, "subprocesses": sum(2 + len(s) for s in seqs),
-        "footprint": fp, "footprint_new": fp_new, "relational_failures": len(fails),
+        "footprint": fp, "footprint_new": fp_new, "relational_failures": len(fails), "stale_cache_jobs": len(stale),
         "traces_validated_against_impl": len(klits) - len(kbad["c19k_agree false"]),
         "correspondence": f"cache model == implementation on {len(klits) - len(kbad['c19k_agree false'])}/{len(klits)} header rows (join switch on: {len(klits) - len(kbad['c19k_agree true'])})",
     })
